@@ -79,11 +79,12 @@ package verify
 
 //@ func readTcbInfoTcbStatus(tcbInfo, tdQuoteBody, pckCertExtensions) (r, err)
 //@   reveal platformUpToDate, moduleUpToDate
-//@   requires tdQuoteBody != nil && len(tdQuoteBody.TeeTcbSvn) == 16 && pckCertExtensions != nil
+//@   requires pckCertExtensions != nil
+//@   ensures[checked-size] err == nil ==> tdQuoteBody != nil && len(tdQuoteBody.TeeTcbSvn) == 16
 //@   ensures[status] err == nil && r.TcbStatus == "UpToDate" ==> platformUpToDate(tcbInfo, tdQuoteBody.TeeTcbSvn, pckCertExtensions)
 //@ |       && (tdQuoteBody.TeeTcbSvn[1] > 0 ==> moduleUpToDate(tcbInfo, tdQuoteBody.TeeTcbSvn))
 //@   ensures[no-platform-level] (forall j :: 0 <= j && j < len(tcbInfo.TcbLevels) ==> !lvlMatch(tcbInfo.TcbLevels[j], tdQuoteBody.TeeTcbSvn, pckCertExtensions.TCB.PCESvn, pckCertExtensions.TCB.CPUSvnComponents)) ==> err != nil
-//@   ensures[complete] platformUpToDate(tcbInfo, tdQuoteBody.TeeTcbSvn, pckCertExtensions)
+//@   ensures[complete] tdQuoteBody != nil && len(tdQuoteBody.TeeTcbSvn) == 16 && platformUpToDate(tcbInfo, tdQuoteBody.TeeTcbSvn, pckCertExtensions)
 //@ |       && (tdQuoteBody.TeeTcbSvn[1] > 0 ==> moduleUpToDate(tcbInfo, tdQuoteBody.TeeTcbSvn)) ==> err == nil && r.TcbStatus == "UpToDate"
 
 //@ func checkTcbInfoTcbStatus(tcbInfo, tdQuoteBody, pckCertExtensions) (err)
@@ -518,7 +519,6 @@ package verify
 
 //@ func SupportedTcbLevelsFromCollateral(quote, options) (tcb, qe, err)
 //@   requires options != nil ==> options.Now != nil
-//@   requires typeis(quote, "*tdx.QuoteV4") ==> quoteOK(as(quote, "*tdx.QuoteV4"))
 //@   ensures[no-empty-level] err == nil && typeis(quote, "*tdx.QuoteV4") ==>
 //@ |     !(forall j :: 0 <= j && j < len(options.collateral.TdxTcbInfo.TcbInfo.TcbLevels) ==> !lvlMatch(options.collateral.TdxTcbInfo.TcbInfo.TcbLevels[j],
 //@ |          as(quote, "*tdx.QuoteV4").TdQuoteBody.TeeTcbSvn, options.pckCertExtensions.TCB.PCESvn, options.pckCertExtensions.TCB.CPUSvnComponents))
